@@ -21,6 +21,7 @@ extern double hx_now, hx_stop, hx_late;
 extern int hx_iter_log;
 extern long hx_fs_calls, hx_crash_at, hx_fault_at;
 extern int hx_fault_errno;
+extern long hx_spawn_fail_in;
 
 extern void hx_log(const char *fmt, ...) __attribute__((format(printf, 1, 2)));
 extern void hx_log_esc(const char *s, size_t n);
